@@ -138,6 +138,54 @@ Section HdProofs.
   Qed.
 End HdProofs.
 
+(* ---------- the body of derive_child as a one-component path ---------- *)
+Lemma deser_known_version p a b n sha256 x v d fp ch cc key :
+  deserialized_extended_key p a b n sha256 x = Ok (v, d, fp, ch, cc, key) -> known_version v = true.
+Proof.
+  unfold deserialized_extended_key. destruct (base58check_decode sha256 x) as [decoded|e]; cbn [bind]; [|discriminate].
+  unfold xkey_of_payload. remember (firstn 4 decoded) as version eqn:EV.
+  destruct (negb (Nat.eqb (length decoded) 78)); [discriminate|].
+  destruct (known_version version) eqn:KV; cbn [negb]; [|discriminate].
+  destruct (_ && _); [discriminate|]. destruct (_ && _); [discriminate|].
+  match goal with |- bind ?r _ = _ -> _ => destruct r; cbn [bind]; [|discriminate] end.
+  intros H. assert (v = version) by congruence. now subst v.
+Qed.
+
+Section HdPath.
+  Variables p a b n : Z.
+  Variable G : point.
+  Hypothesis SQ : sqrt_facts p.
+  Hypothesis Ha : inF p a = true.
+  Hypothesis Hb : inF p b = true.
+  Hypothesis Hw : p <= 2 ^ 256.
+  Variable hmac : bytes -> bytes -> bytes.
+  Variable sha256 ripemd160 : bytes -> bytes.
+
+  (* derive_child(xkey, i) [body] = derive_from_path("m/<i>" or "M/<i>", xkey), i written as derive_from_path reads it
+     (render: decimal, with ' for i >= 2^31) *)
+  Theorem derive_child_body_is_path xkey i v d fp ch cc key :
+    deserialized_extended_key p a b n sha256 xkey = Ok (v, d, fp, ch, cc, key) ->
+    is_testnet_version v = false ->
+    starts_with txt_xprv xkey = is_private_version v ->
+    starts_with txt_xpub xkey = is_public_version v ->
+    0 <= i < 2 ^ 32 ->
+    forall y, derive_child_body p a b n G hmac sha256 ripemd160 xkey i = Ok y
+              <-> derive_from_path p a b n G hmac sha256 ripemd160 (join (pfx (is_public_version v)) [render i]) xkey = Ok y.
+  Proof using SQ Ha Hb Hw.
+    intros D TN PX PU Hi y.
+    rewrite (derive_child_body_is_step p a b n G SQ Ha Hb Hw hmac sha256 ripemd160 xkey i v d fp ch cc key D TN PX PU y).
+    rewrite dfp_join by (constructor; [now apply no_slash_render|constructor]).
+    rewrite D. cbn [bind version_of].
+    pose proof (deser_known_version _ _ _ _ _ _ _ _ _ _ _ _ D) as KV.
+    assert (KO : kind_ok (is_public_version v) v = true).
+    { destruct (mainnet_versions v KV TN) as [(_ & Pr & Pu)|(_ & Pr & Pu)]; rewrite Pu; cbn [kind_ok]; assumption. }
+    rewrite KO, TN.
+    change [render i] with (map render [i]). rewrite ptree_render by (constructor; [exact Hi|constructor]).
+    cbn [bind derive_steps].
+    destruct (derive_step p a b n G hmac sha256 ripemd160 (is_public_version v) false xkey i); cbn [bind]; tauto.
+  Qed.
+End HdPath.
+
 (* ---------- class HD ---------- *)
 Section HdClass.
   Variables p a b n : Z.
